@@ -23,7 +23,7 @@ VARIABLE i
 
 InitSt(r) == [dir |-> r.init.dir, dest |-> r.init.orig,
               tmp |-> [k \in ToSet(r.init.stale) |-> [owner |-> "stale", data |-> TRUE]],
-              wr |-> [w \in DOMAIN r.init.orig |-> NewWriter],
+              wr |-> [w \in DOMAIN r.init.orig |-> [NewWriter EXCEPT !.base = r.init.orig[w]]],
               faults |-> r.init.faults]
 LsOf(j) == [dir |-> j.dir, d |-> j.d, tmp |-> {<<j.tmp[k][1], j.tmp[k][2]>> : k \in 1..Len(j.tmp)}]
 \* Visible(st) in a JSON-printable shape
@@ -49,8 +49,8 @@ StepEv(acc, e, n, orig) ==
     ELSE LET g == Guard(st, e) IN
          IF g # "" THEN [acc EXCEPT !.v = Bad(g, k, st, e.w)]
          ELSE LET s2 == Apply(st, e) IN
-              IF ~DestIntact(s2, orig) THEN [acc EXCEPT !.v = Bad("prop.dest", k, s2, e.w)]
-              ELSE IF ~FailedClean(s2, orig) THEN [acc EXCEPT !.v = Bad("prop.failed", k, s2, e.w)]
+              IF ~DestIntact(s2) THEN [acc EXCEPT !.v = Bad("prop.dest", k, s2, e.w)]
+              ELSE IF ~FailedClean(s2) THEN [acc EXCEPT !.v = Bad("prop.failed", k, s2, e.w)]
               ELSE IF ~DoneNew(s2) THEN [acc EXCEPT !.v = Bad("prop.done", k, s2, e.w)]
               ELSE IF ~(NoSharedTemp(s2) /\ HoldsOwn(s2)) THEN [acc EXCEPT !.v = Bad("prop.temps", k, s2, e.w)]
               ELSE [st |-> s2, k |-> k + 1, v |-> Good]
